@@ -175,3 +175,45 @@ Theorem unlock_idempotent :
     (st_zomb (ps s p) = None -> step chk cfg s p OClose = None) /\
     (forall s' r e, step chk cfg s p OClose = Some (s', r, e) -> path s' = path s /\ st_pc (ps s' p) = Idle).
 Proof. exact unlock_idempotent_lemma. Qed.
+
+(* ---- with time (treach / tstep): one clock; the modification time of a lock file is the time of its last
+   open(path, 'w+') or pid write; OTime and OMtime readings are the values of that clock and of that time.
+   tile_locks B cfg: every lock user is a FileLock(remove_on_unlock=True) (the tile locks TileLocker hands out),
+   every clean-up runs with max_lock_time >= B.  treach B: every state passed through is `timely B`: no process
+   takes longer than B from opening a lock file to releasing it (or to the end of its failed attempt). *)
+
+(* cleanup_lockdir never removes a lock file that is in use, indeed none at all: along timely runs no clean-up
+   pass ever reaches os.unlink (the file at the path is always open in some process that has not given up on it,
+   that process opened it at most B ago, and the modification time is not older than that). *)
+Theorem cleanup_never_unlinks :
+  forall B cfg ts,
+    (0 <= B)%Z -> tile_locks B cfg -> treach B true cfg ts ->
+    (forall p, st_pc (ps (base ts) p) <> CUnlink) /\ (forall p, tstep true cfg ts p OUnlink = None).
+Proof. exact cleanup_never_unlinks_lemma. Qed.
+
+(* Hence the name of a lock file disappears only through the unlock of the process that is inside through it:
+   a held lock file is never removed by anybody else. *)
+Theorem cleanup_never_removes_held_file :
+  forall B cfg ts p o ts' i,
+    (0 <= B)%Z -> tile_locks B cfg -> treach B true cfg ts ->
+    tstep true cfg ts p o = Some ts' -> path (base ts) 0 = Some i ->
+    path (base ts') 0 = Some i \/ (o = ORemove /\ st_pc (ps (base ts) p) = Inside 0 i).
+Proof. exact held_file_keeps_name_lemma. Qed.
+
+(* and mutual exclusion holds along timely runs of lock users and clean-up processes, with no side condition on
+   the schedule other than timeliness *)
+Theorem mutex_timed :
+  forall B cfg ts p q k,
+    (0 <= B)%Z -> tile_locks B cfg -> treach B true cfg ts ->
+    inside_at (base ts) p k -> inside_at (base ts) q k -> p = q.
+Proof. exact mutex_timed_lemma. Qed.
+
+(* The timing assumption cannot be dropped (the documented override of locks older than max_lock_time): a holder
+   that keeps the lock for 100 s against max_lock_time = 10 s loses the name of its file and a second process
+   enters.  NOT covered by the theorems above: keep-the-file locks and lock files left behind by a crashed holder -
+   there a stale file exists that nobody has open, and because getmtime and unlink are two calls, a process that
+   locks it in between loses it (no bound on its own timing helps). *)
+Theorem cleanup_needs_timely_refuted :
+  exists ts, trun true clean_cfg tinit timed_override_schedule = Some ts /\
+             inside_at (base ts) 0 0 /\ inside_at (base ts) 1 0.
+Proof. exact timed_override_two_inside. Qed.
